@@ -159,3 +159,25 @@ void h_swap_overflow(void) {
   VASSERT(h1.f0 == 1 && (int32_t)h1.f8.e[0] == a && h2.f0 == 1, "contents exchanged");
   VWITNESS("any");
 }
+
+/* ---- C05: doc[P+1] = x on an array of P elements, the allocator failing ONCE (PADFAIL-th call of the assignment; 0 = never) */
+#ifndef PADP
+#define PADP 0
+#define PADFAIL 1
+#endif
+void h_pad_fail(void) {
+  int32_t a = (int32_t)vin_u32(), x = (int32_t)vin_u32();
+  struct S_Hist h; memset(&h, 0, sizeof h); w_hist_pad_fail((uint32_t)a, (uint32_t)x, PADP, PADFAIL, &h);
+  for (unsigned i = 0; i < PADP; i++) VASSERT((int32_t)h.f8.e[i] == a, "elements outside the path being modified are unchanged");
+  if (PADFAIL) {
+    VASSERT(h.f5 == 0, "the assignment reports the failure");
+    VASSERT(h.f2 & 1, "overflowed() becomes true");
+    VASSERT(h.f0 == h.f1 && h.f0 <= PADP + 1, "no element appears at a wrong index: the array is not extended up to the target");
+    for (unsigned i = PADP; i < h.f1 && i < 8; i++) VASSERT((int32_t)h.f8.e[i] == -1000, "whatever padding was added is null");
+    VWITNESS("failed");
+  } else {
+    VASSERT(h.f5 == 1 && !(h.f2 & 1) && h.f0 == PADP + 2 && h.f1 == PADP + 2, "extended up to the index");
+    VASSERT((int32_t)h.f8.e[PADP] == -1000 && (int32_t)h.f8.e[PADP + 1] == x, "gap is null, value at its index");
+    VWITNESS("stored");
+  }
+}
